@@ -9,6 +9,8 @@
 import IcontractModel.Spec.PyEval
 import IcontractModel.Represent
 import IcontractModel.Props.C06
+import IcontractModel.SrcScan
+import IcontractModel.Lemmas.SrcScanLemmas
 namespace Icontract.Ex
 
 /-- **The re-evaluation cannot fail where Python succeeded**: whenever Python evaluates the (well-formed)
@@ -52,3 +54,58 @@ theorem C07_comprehension_internals_are_best_effort (ops : Ops) (bi : List (Stri
   cases ops.comp i tbl.values <;> simp [Except.map]
 
 end Icontract.Ex
+
+namespace Icontract.Src
+
+/-- **The layout of the decorator does not matter.**  Let the decorator occupy the lines `s .. e-1` of the file: line `s`
+starts it (`@name...`), none of its continuation lines `s+1 .. e-1` starts with `@name`, `def `, `async def` or `class `
+(whatever else they contain - arguments, comments, strings, closing parentheses, blank lines), and line `e` is the next
+decorator or the decorated `def` / `class`.  Then from ANY line of the decorator (the interpreter reports the first,
+the last or a middle line of a multi-line call, depending on its version and on the layout) the scan recovers exactly
+the lines `s .. e-1` - no matter how many lines there are or what surrounds the decorator in the file. -/
+theorem C07_layout_does_not_matter (ks : List LineKind) (s e lineno : Nat)
+    (hs : ks[s]? = some .deco) (he : ks[e]? = some .deco ∨ ks[e]? = some .defcls)
+    (hmid : ∀ i, s < i → i < e → ks[i]? = some .other)
+    (h1 : s ≤ lineno) (h2 : lineno < e) :
+    scan ks lineno = .ok (s, e) := by
+  have helt : e < ks.length := by
+    cases he with
+    | inl h => exact (List.getElem?_eq_some_iff.mp h).1
+    | inr h => exact (List.getElem?_eq_some_iff.mp h).1
+  have hother : ∀ i, s < i → i < e → ks[i]? ≠ some .deco ∧ ks[i]? ≠ some .defcls := by
+    intro i hi1 hi2
+    rw [hmid i hi1 hi2]
+    exact ⟨fun hc => (by cases hc), fun hc => (by cases hc)⟩
+  have hup : findUp ks lineno = some s :=
+    findUp_eq ks s hs lineno h1 (fun i hi1 hi2 => (hother i hi1 (by omega)).1)
+  have hdown : findDown ks (lineno + 1) = some e :=
+    findDown_eq ks (lineno + 1) e (by omega) he (fun i hi1 hi2 => hother i (by omega) hi2)
+  have hlen : ¬ lineno ≥ ks.length := by omega
+  simp only [scan, if_neg hlen, hup, hdown]
+
+/-- conversely, whatever the scan returns is a decorator line at or above the given line and the first
+decorator / def / class line below it: nothing else in the file influences the recovered extent -/
+theorem C07_scan_result_characterised (ks : List LineKind) (lineno s e : Nat) (h : scan ks lineno = .ok (s, e)) :
+    s ≤ lineno ∧ lineno < e ∧ ks[s]? = some .deco ∧ (ks[e]? = some .deco ∨ ks[e]? = some .defcls) ∧
+    (∀ i, s < i → i ≤ lineno → ks[i]? ≠ some .deco) ∧
+    (∀ i, lineno < i → i < e → ks[i]? ≠ some .deco ∧ ks[i]? ≠ some .defcls) := by
+  unfold scan at h
+  split at h
+  · cases h
+  · split at h
+    · cases h
+    · next s' hup =>
+      split at h
+      · cases h
+      · next e' hdown =>
+        injection h with h
+        injection h with hs' he'
+        subst hs' he'
+        obtain ⟨u1, u2, u3⟩ := findUp_spec ks lineno _ hup
+        obtain ⟨d1, d2, d3⟩ := findDown_spec ks (lineno + 1) _ hdown
+        exact ⟨u1, by omega, u2, d2, u3, fun i hi1 hi2 => d3 i (by omega) hi2⟩
+
+/-- non-vacuity: a five-line decorator reported at its last line, between another decorator and the `def` -/
+example : scan [.other, .deco, .deco, .other, .other, .other, .other, .defcls, .other] 6 = .ok (2, 7) := by rfl
+
+end Icontract.Src
